@@ -169,7 +169,7 @@ func c20(w *core.World, r *core.Report) {
 				if e.kind == "exists" || e.kind == "del" {
 					get("R20.1/probe-first-chunk-only").n++
 					// a value that is not split has one chunk only: that chunk is the first one
-					whole := pathAssumed(p, func(x ssa.Value) bool {
+					whole := pathAssumedN(p, func(x ssa.Value) bool {
 						c, ok := core.Unwrap(x).(*ssa.Call)
 						return ok && c.Call.IsInvoke() && c.Call.Method.Name() == "IsSplited"
 					}, false)
